@@ -121,6 +121,21 @@ Theorem C13_old_code_refuted :
 Proof. exact C13_old_code_refuted_thm. Qed.
 Print Assumptions C13_old_code_refuted.
 
+(* translator pin of the code shape: on a healthy flash the real supla_esp_cfg_save / supla_esp_save_state / factory_defaults(1) /
+   supla_esp_cfg_init (blank sector, v6 record, then the migrated v7 record) issue exactly the erase/write operations
+   (kind, address, length, order) that the model issues *)
+Theorem C13_code_shape :
+  ops_of (snd (fst (save_cfg CURRENT_CHK (fill CFG_SIZE 0) init_st))) = OPS_CFG_SAVE /\
+  ops_of (snd (save_state_now CURRENT_CHK init_st)) = OPS_STATE_SAVE /\
+  ops_of (snd (factory CURRENT_CHK 1 init_st)) = OPS_FACTORY_SAVE /\
+  ops_of (snd (fst (do_init CURRENT_CHK 0 init_st))) = OPS_INIT_BLANK /\
+  (let s6 := set_sector false (fit SEC_SIZE 255 v6_probe_img) init_st in
+   let '(s7, o, r) := do_init CURRENT_CHK 0 s6 in
+   ops_of o = OPS_INIT_V6 /\ r = 1 /\ INIT_V6_ACCEPTED = 1 /\
+   len (ops_of (snd (fst (do_init CURRENT_CHK 0 s7)))) = OPS_INIT_V7_COUNT).
+Proof. exact C13_shape_thm. Qed.
+Print Assumptions C13_code_shape.
+
 (* non-vacuity: the hypotheses are satisfiable (a valid record, a quiet machine holding it), a first boot on blank flash
    stores a record that the next boot accepts, and a v6 record exists that meets the migration hypotheses *)
 Example C13_nonvacuous :
